@@ -635,6 +635,11 @@ namespace occa {
         token_t *token = NULL;
         (*this) >> token;
 
+        // The rest of the input can expand to nothing (e.g. an unterminated defined( )
+        if (!token) {
+          break;
+        }
+
         if (token->type() & tokenType::newline) {
           incrementNewline();
           lineTokens.push_back(token);
